@@ -200,6 +200,9 @@ func runBatch(t hx.TB, b batch) {
 				}
 				_ = c.SetReadDeadline(time.Now().Add(8 * time.Second))
 				a.data, _ = io.ReadAll(c)
+				// consumers close more than once (net/http closes an idle connection again at shutdown); the deferred
+				// Close below is the second one
+				_ = c.Close()
 				mu.Lock()
 				byRemote[a.remote] = append(byRemote[a.remote], a)
 				mu.Unlock()
